@@ -64,6 +64,98 @@ class Report:
             raise Undecided("time budget of %.0f s exceeded after %d obligations (set VERIF_BUDGET_S to raise it)"
                             % (self.budget_s, len(self.obligations)))
 
+    # ---- fork-per-item parallelism (results merged in item order: the evidence does not depend on scheduling)
+    _MERGE_LISTS = ("obligations", "violations", "undecided", "known_hit", "bounded")
+    _MERGE_UNIQ = ("trusted", "assumptions", "notes", "not_run")
+
+    def parallel(self, items, fn, jobs=None):
+        """run fn(rep_i, item) for every item in forked children (rep_i: a fresh Report sharing this one's
+        identity and time budget) and merge what they recorded, in item order"""
+        import pickle
+        import tempfile
+        import traceback
+        jobs = int(os.environ.get("VERIF_JOBS", jobs or min(14, os.cpu_count() or 1)))
+        items = list(items)
+        if jobs <= 1 or len(items) <= 1 or os.environ.get("VERIF_SERIAL"):
+            for it in items:
+                fn(self, it)
+            return
+        tmpd = tempfile.mkdtemp(prefix="par_", dir=os.path.join(VERIF, ".build", "tmp") if os.path.isdir(os.path.join(VERIF, ".build", "tmp")) else None)
+        sys.stdout.flush()
+        sys.stderr.flush()
+        running, nxt, outfiles = {}, 0, {}
+        try:
+            while nxt < len(items) or running:
+                while nxt < len(items) and len(running) < jobs:
+                    out = os.path.join(tmpd, "%d.pkl" % nxt)
+                    outfiles[nxt] = out
+                    pid = os.fork()
+                    if pid == 0:
+                        code = 0
+                        try:
+                            sub = Report(self.pid, self.tier, self.seed, self.level)
+                            sub.t0, sub.budget_s = self.t0, self.budget_s
+                            state = {"error": None}
+                            try:
+                                t_item = time.time()
+                                fn(sub, items[nxt])
+                                sub.progress("item %d/%d done in %.1fs" % (nxt + 1, len(items), time.time() - t_item))
+                            except Undecided as e:
+                                state["error"] = ("undecided", str(e))
+                            except BaseException:
+                                state["error"] = ("exception", traceback.format_exc())
+                            for k in self._MERGE_LISTS + self._MERGE_UNIQ + ("functions", "backends", "samples", "extra"):
+                                state[k] = getattr(sub, k)
+                            with open(out + ".tmp", "wb") as f:
+                                pickle.dump(state, f)
+                            os.rename(out + ".tmp", out)
+                        except BaseException:
+                            code = 3
+                        finally:
+                            sys.stdout.flush()
+                            sys.stderr.flush()
+                            os._exit(code)
+                    running[pid] = nxt
+                    nxt += 1
+                pid, status = os.wait()
+                running.pop(pid, None)
+            err = None
+            for i in range(len(items)):
+                if not os.path.exists(outfiles[i]):
+                    raise Undecided("worker for %r died without a result" % (items[i],))
+                with open(outfiles[i], "rb") as f:
+                    st = pickle.load(f)
+                for k in self._MERGE_LISTS:
+                    getattr(self, k).extend(st[k])
+                for k in self._MERGE_UNIQ:
+                    cur = getattr(self, k)
+                    for x in st[k]:
+                        if x not in cur:
+                            cur.append(x)
+                self.functions.update(st["functions"])
+                for b, (n, t) in st["backends"].items():
+                    cur = self.backends.setdefault(b, [0, 0.0])
+                    cur[0] += n
+                    cur[1] += t
+                for smp in st["samples"]:
+                    if len(self.samples) < 6:
+                        self.samples.append(smp)
+                self.extra.update(st["extra"])
+                if st["error"] and err is None:
+                    err = st["error"]
+            if err:
+                if err[0] == "undecided":
+                    raise Undecided(err[1])
+                raise RuntimeError("worker failed:\n" + err[1])
+        finally:
+            for pid in list(running):
+                try:
+                    os.kill(pid, 9)
+                except OSError:
+                    pass
+            import shutil
+            shutil.rmtree(tmpd, ignore_errors=True)
+
     def progress(self, msg):
         if os.environ.get("VERIF_VERBOSE"):
             sys.stderr.write("[%7.1fs] %s\n" % (time.time() - self.t0, msg))
@@ -193,6 +285,11 @@ class Report:
             key = "%s | %s" % (b.get("backend"), (why or "")[:100])
             reasons[key] = reasons.get(key, 0) + 1
         cov["bounded_standins_by_reason"] = reasons
+        bys = {}
+        for b in self.bounded:
+            key = _re.sub(r"\[[01]*\]$", "", "/".join(b["name"].split("/")[:3])) + " | " + str(b.get("backend"))
+            bys[key] = bys.get(key, 0) + 1
+        cov["bounded_standins_by_function_scenario"] = dict(sorted(bys.items())[:400])
         cov["obligations_by_function_scenario"] = {k: {"generated": v[0], "discharged": v[1]} for k, v in sorted(by.items())[:600]}
         cov.update(self.extra)
         ev = {
